@@ -39,6 +39,8 @@ pub const MIRRORS: &[(&[&str], &str, &str, &str)] = &[
     (&["C17"], "input.rs", "take", "Lexer.Input"),
     (&["C17"], "input.rs", "take_from", "Lexer.Input"),
     (&["C17"], "input.rs", "take_split", "Lexer.Input"),
+    (&["C17"], "lexer/error.rs", "contextualize", "Lexer.Context.contextualize"),
+    (&["C17"], "lexer/util.rs", "until_next_unindented", "Lexer.Context.untilNextUnindented"),
     // values
     (&["C07"], "lexer/bit_string.rs", "bit_string_value", "Lexer.Values"),
     (&["C07"], "validator/linking/utils.rs", "bit_string_to_octet_string", "Lexer.Values"),
